@@ -92,6 +92,7 @@ Admissible(ns, k) ==
     /\ (cmd \in {"NormalizeMeanToMid", "CvtToFuzzyMeanToMid"} /\ P(p, "IgnoreZeros") = "True" => NDistinct(SelectSeq(v, LAMBDA c : c # R(0))) >= 2)
     /\ IsOk(Val(ns, k))
     /\ Valid(Val(ns, k)[2]) # <<>>
+    /\ \A j \in 1..Len(Val(ns, k)[2]) : Abs(Val(ns, k)[2][j][1]) <= 1000000 /\ Val(ns, k)[2][j][2] <= 20000     \* keeps every value identifiable from its float
 RECURSIVE PrefixAdmissible(_, _)
 PrefixAdmissible(ns, k) == k = 0 \/ (PrefixAdmissible(ns, k - 1) /\ Admissible(ns, k))
 AllAdmissible(ns) == PrefixAdmissible(ns, Len(ns))
@@ -99,4 +100,19 @@ AllAdmissible(ns) == PrefixAdmissible(ns, Len(ns))
 PrefixStable == AllAdmissible(nodes) => \A k \in 1..Len(nodes) : Val(nodes, k) = Val(SubSeq(nodes, 1, k), k)
 Report == Len(nodes) = MaxNodes =>
              PrintT(<<"MODEL", TableId, nodes, AllAdmissible(nodes), IF AllAdmissible(nodes) THEN [k \in 1..Len(nodes) |-> Val(nodes, k)[2]] ELSE <<>>>>)
+\* ---------- every ordered producer / consumer pair (INIT PairInit, no steps): two reads and two fuzzy conversions as a base,
+\* the producer on the base, the consumer on the producer (filled up with base nodes of the right fuzziness)
+Base == << <<"EEMSRead", <<>>, "a">>, <<"EEMSRead", <<>>, "d">>,
+           <<"CvtToFuzzy", << <<"TrueThreshold", R(3)>>, <<"FalseThreshold", R(-1)>> >>, <<1>>>>, <<"CvtToFuzzy", <<>>, <<2>>>> >>
+Arity(cmd) == IF cmd \in Single THEN 1 ELSE 2
+BaseIns(cmd) == IF cmd \in FuzzyIn THEN <<3, 4>> ELSE <<1, 2>>
+OnBase(cmd, o) == <<cmd, Options(cmd, Arity(cmd))[o], SubSeq(BaseIns(cmd), 1, Arity(cmd))>>
+OnProducer(cmd, o, pf) == <<cmd, Options(cmd, Arity(cmd))[o], IF Arity(cmd) = 1 THEN <<5>> ELSE <<5, (IF pf THEN 4 ELSE 2)>>>>
+PairInit == \E pc \in Cmds, cc \in Cmds, po \in 1..3, co \in 1..3 :
+               /\ po <= Len(Options(pc, Arity(pc))) /\ co <= Len(Options(cc, Arity(cc)))
+               /\ (cc \in AnyIn \/ (cc \in FuzzyIn <=> pc \in FuzzyCmds))
+               /\ nodes = Base \o <<OnBase(pc, po), OnProducer(cc, co, pc \in FuzzyCmds)>>
+PairNext == FALSE /\ UNCHANGED nodes
+PairReport == PrintT(<<"MODEL", TableId, nodes, AllAdmissible(nodes), IF AllAdmissible(nodes) THEN [k \in 1..Len(nodes) |-> Val(nodes, k)[2]] ELSE <<>>>>)
+
 =============================================================================
